@@ -20,13 +20,14 @@ import string as _string
 from typing import Dict, List, Optional, Set, Tuple
 
 
-def _is_const_expr(e: ast.AST, known: Dict[str, ast.AST]) -> bool:
+def _is_const_expr(e: ast.AST, known: Dict[str, ast.AST], stable: Set[str] = frozenset(), top: bool = True) -> bool:
     if isinstance(e, ast.Constant):
         return isinstance(e.value, (str, int, float, bool, bytes, type(None)))
     if isinstance(e, ast.Name):
-        return e.id in known
+        # inside a tuple, a name bound once at module level by an import or a class statement (a class, an imported function) is as good as a constant
+        return e.id in known or (not top and e.id in stable)
     if isinstance(e, ast.Tuple):
-        return bool(e.elts) and all(_is_const_expr(x, known) for x in e.elts)
+        return bool(e.elts) and all(_is_const_expr(x, known, stable, False) for x in e.elts)
     if isinstance(e, ast.UnaryOp) and isinstance(e.op, ast.USub):
         return isinstance(e.operand, ast.Constant) and isinstance(e.operand.value, (int, float))
     return False
@@ -103,6 +104,7 @@ def fold_private_constants(trees: Dict[str, ast.Module], pkgs: Set[str]) -> None
         stores = _stored_names(t)
         priv_mod = "._private" in m or m.endswith("_private")
         known: Dict[str, ast.AST] = {}
+        stable = {nm for nm, vals in binds.items() if len(vals) == 1 and stores.get(nm, 0) == 1 and isinstance(vals[0], (ast.ClassDef, ast.Import, ast.ImportFrom)) and nm[:1].isupper()}
         for _ in range(4):
             grew = False
             for nm, vals in binds.items():
@@ -113,7 +115,7 @@ def fold_private_constants(trees: Dict[str, ast.Module], pkgs: Set[str]) -> None
                     continue
                 if not nm.startswith("_") and isinstance(vals[0], ast.Tuple):
                     continue  # the public-looking tables of a private module (extensions.IMAGE ..) are tables the rules read by name
-                if _is_const_expr(vals[0], known):
+                if _is_const_expr(vals[0], known, stable):
                     known[nm] = _resolve(vals[0], known)
                     grew = True
             if not grew:
@@ -458,6 +460,42 @@ def genexp_for_loops(tree: ast.Module) -> None:
 
 # ---------------------------------------------------------------------------
 
+_ITERATOR_MAKERS = {"parse_msd", "iter", "map", "filter", "zip", "enumerate", "reversed", "chain", "islice", "groupby", "merge", "filterfalse", "starmap", "accumulate", "takewhile", "dropwhile"}
+
+
+def _always_iterator(tree: ast.AST, name: str) -> bool:
+    """Every binding of *name* (in whatever function binds it) is the result of a call known to return an iterator (library fact: msdparser's
+    parse_msd is a generator function; the itertools / builtin makers), or a generator expression."""
+    vals: List[Optional[ast.AST]] = []
+    for n in ast.walk(tree):
+        if isinstance(n, ast.Assign):
+            for t in n.targets:
+                if isinstance(t, ast.Name) and t.id == name:
+                    vals.append(n.value)
+                elif any(isinstance(x, ast.Name) and x.id == name for x in ast.walk(t)):
+                    vals.append(None)
+        elif isinstance(n, (ast.AnnAssign, ast.AugAssign, ast.For, ast.With, ast.NamedExpr)) or isinstance(n, ast.arg):
+            if isinstance(n, ast.arg):
+                if n.arg == name:
+                    vals.append(None)
+            else:
+                tgt = getattr(n, "target", None)
+                if tgt is not None and any(isinstance(x, ast.Name) and x.id == name for x in ast.walk(tgt)):
+                    vals.append(n.value if isinstance(n, ast.AnnAssign) else None)
+    if not vals:
+        return False
+    for v in vals:
+        if isinstance(v, ast.GeneratorExp):
+            continue
+        if isinstance(v, ast.Call):
+            f = v.func
+            nm = f.id if isinstance(f, ast.Name) else (f.attr if isinstance(f, ast.Attribute) else None)
+            if nm in _ITERATOR_MAKERS:
+                continue
+        return False
+    return True
+
+
 def for_break_else(tree: ast.Module) -> None:
     """for x in IT: break / else: H   ->   x = next(iter(IT), __EXHAUSTED__); if x is __EXHAUSTED__: H
     (the first element, or the exhausted branch - the shape the `next` / StopIteration normal form produces)."""
@@ -472,8 +510,10 @@ def for_break_else(tree: ast.Module) -> None:
             for st in body:
                 if isinstance(st, ast.For) and len(st.body) == 1 and isinstance(st.body[0], ast.Break) and isinstance(st.target, ast.Name):
                     it = st.iter
-                    call = ast.Call(func=ast.Name(id="next", ctx=ast.Load()), args=[ast.Call(func=ast.Name(id="iter", ctx=ast.Load()), args=[it], keywords=[]),
-                                                                                  ast.Name(id=EXHAUSTED, ctx=ast.Load())], keywords=[])
+                    src_it: ast.expr = ast.Call(func=ast.Name(id="iter", ctx=ast.Load()), args=[it], keywords=[])
+                    if isinstance(it, ast.Name) and _always_iterator(tree, it.id):
+                        src_it = it  # iter() of an iterator is the iterator
+                    call = ast.Call(func=ast.Name(id="next", ctx=ast.Load()), args=[src_it, ast.Name(id=EXHAUSTED, ctx=ast.Load())], keywords=[])
                     a = ast.Assign(targets=[ast.Name(id=st.target.id, ctx=ast.Store())], value=call)
                     out.append(ast.copy_location(a, st))
                     if st.orelse:
@@ -1334,3 +1374,212 @@ def empty_yield_from(tree: ast.Module) -> None:
                 if not new and fld == "body":
                     new = [ast.copy_location(ast.Pass(), body[0])]
                 setattr(holder, fld, new)
+
+
+
+def fuse_genexps(tree: ast.Module) -> None:
+    """(E(x) for x in (F(y) for y in IT if C))  ->  (E(F(y)) for y in IT if C)   when x occurs exactly once in E and the outer generator has no
+    filter; the same for list comprehensions over a generator.  A generator expression that is unpacked (`a, b = (..)`) is written as the list
+    comprehension (unpacking consumes it completely either way)."""
+    class T(ast.NodeTransformer):
+        def _fuse(self, n):
+            self.generic_visit(n)
+            if len(n.generators) != 1:
+                return n
+            g = n.generators[0]
+            if g.ifs or g.is_async or not isinstance(g.target, ast.Name) or not isinstance(g.iter, ast.GeneratorExp) or len(g.iter.generators) != 1:
+                return n
+            x = g.target.id
+            occ = [m for m in ast.walk(n.elt) if isinstance(m, ast.Name) and m.id == x]
+            if len(occ) != 1:
+                return n
+            inner = g.iter
+            inner_names = {m.id for m in ast.walk(inner.generators[0].target) if isinstance(m, ast.Name)}
+            if inner_names & {m.id for m in ast.walk(n.elt) if isinstance(m, ast.Name)}:
+                return n
+
+            class S(ast.NodeTransformer):
+                def visit_Name(self, m: ast.Name):
+                    return copy.deepcopy(inner.elt) if m is occ[0] else m
+            n.elt = S().visit(n.elt)
+            n.generators = inner.generators
+            return n
+
+        visit_GeneratorExp = _fuse
+        visit_ListComp = _fuse
+
+        def visit_Assign(self, st: ast.Assign):
+            self.generic_visit(st)
+            if len(st.targets) == 1 and isinstance(st.targets[0], (ast.Tuple, ast.List)) and isinstance(st.value, ast.GeneratorExp):
+                st.value = ast.copy_location(ast.ListComp(elt=st.value.elt, generators=st.value.generators), st.value)
+            return st
+    T().visit(tree)
+    ast.fix_missing_locations(tree)
+
+
+def bool_indexed_pairs(tree: ast.Module) -> None:
+    """(A, B)[c]  with a two-element display of names / constants and c a name or a comparison: B if c else A  (c is a truth value: the display
+    has exactly the two positions False / True can select)."""
+    class T(ast.NodeTransformer):
+        def visit_Subscript(self, n: ast.Subscript):
+            self.generic_visit(n)
+            if isinstance(n.ctx, ast.Load) and isinstance(n.value, (ast.Tuple, ast.List)) and len(n.value.elts) == 2 and all(isinstance(x, (ast.Name, ast.Constant, ast.Attribute)) for x in n.value.elts) \
+                    and (isinstance(n.slice, (ast.Compare, ast.BoolOp)) or (isinstance(n.slice, ast.UnaryOp) and isinstance(n.slice.op, ast.Not))
+                         or (isinstance(n.slice, ast.Name) and (n.slice.id.startswith(("is_", "has_")) or n.slice.id.endswith(("_flag", "_ok"))))):
+                return ast.copy_location(ast.IfExp(test=n.slice, body=n.value.elts[1], orelse=n.value.elts[0]), n)
+            return n
+    T().visit(tree)
+    ast.fix_missing_locations(tree)
+
+
+# ---------------------------------------------------------------------------
+
+def _fn_scopes(fn: ast.AST):
+    """Nodes of fn that belong to its own scope (nested function / lambda / class bodies excluded, their default / decorator expressions too)."""
+    stack = list(ast.iter_child_nodes(fn))
+    while stack:
+        n = stack.pop()
+        yield n
+        if isinstance(n, (ast.FunctionDef, ast.AsyncFunctionDef, ast.Lambda, ast.ClassDef)):
+            continue
+        stack.extend(ast.iter_child_nodes(n))
+
+
+def rename_apart(tree: ast.Module) -> None:
+    """A local that is assigned several times, each time by a plain `x = E` statement, and every read of which lies in the same block as one of
+    these statements, after it, with no other assignment of x in between (nor nested in between): each assignment starts a new variable
+    (x__v1, x__v2, ..).  What the inliner produces when one helper is spliced in twice (`filename = backup; ..; filename = output; ..`) becomes
+    single-assignment again.  Not applied to parameters, to names captured by nested functions, or when x is read before being assigned in a
+    block (a value carried round a loop)."""
+    for fn in [n for n in ast.walk(tree) if isinstance(n, (ast.FunctionDef, ast.AsyncFunctionDef))]:
+        params = {a.arg for a in fn.args.posonlyargs + fn.args.args + fn.args.kwonlyargs} | ({fn.args.vararg.arg} if fn.args.vararg else set()) | ({fn.args.kwarg.arg} if fn.args.kwarg else set())
+        own = list(_fn_scopes(fn))
+        captured = set()
+        for n in ast.walk(fn):
+            if isinstance(n, (ast.FunctionDef, ast.AsyncFunctionDef, ast.Lambda, ast.ClassDef)) and n is not fn:
+                captured |= {m.id for m in ast.walk(n) if isinstance(m, ast.Name)}
+            if isinstance(n, (ast.Nonlocal, ast.Global)):
+                captured |= set(n.names)
+        store_sites: Dict[str, List[ast.AST]] = {}
+        for n in own:
+            if isinstance(n, ast.Name) and isinstance(n.ctx, (ast.Store, ast.Del)):
+                store_sites.setdefault(n.id, []).append(n)
+        blocks: List[List[ast.stmt]] = []
+        for n in [fn] + own:
+            if isinstance(n, (ast.FunctionDef, ast.AsyncFunctionDef, ast.ClassDef, ast.Lambda)) and n is not fn:
+                continue
+            for fld in ("body", "orelse", "finalbody"):
+                b = getattr(n, fld, None)
+                if isinstance(b, list) and b and isinstance(b[0], ast.stmt):
+                    blocks.append(b)
+            for h in getattr(n, "handlers", []):
+                blocks.append(h.body)
+        # definition sites: (block, index) of `x = E`
+        defs: Dict[str, List[Tuple[List[ast.stmt], int]]] = {}
+        for b in blocks:
+            for i, st in enumerate(b):
+                if isinstance(st, ast.Assign) and len(st.targets) == 1 and isinstance(st.targets[0], ast.Name):
+                    defs.setdefault(st.targets[0].id, []).append((b, i))
+        counter = 0
+        for x, sites in defs.items():
+            if len(sites) < 2 or x in params or x in captured:
+                continue
+            if {id(s) for s in store_sites.get(x, [])} != {id(b[i].targets[0]) for b, i in sites}:
+                continue
+            # segments: after each definition up to the next definition in the same block (or the block's end)
+            segs: List[Tuple[List[ast.stmt], int, int]] = []
+            for b, i in sites:
+                later = [j for (b2, j) in sites if b2 is b and j > i]
+                segs.append((b, i, min(later) if later else len(b)))
+            ok = True
+            seg_nodes: List[Set[int]] = []
+            for b, i, hi in segs:
+                ids = {id(m) for st in b[i + 1:hi] for m in ast.walk(st)}
+                # no other definition nested inside the segment
+                if any(id(b2[j].targets[0]) in ids for (b2, j) in sites):
+                    ok = False
+                seg_nodes.append(ids)
+            if not ok:
+                continue
+            loads = [m for m in own if isinstance(m, ast.Name) and m.id == x and isinstance(m.ctx, ast.Load)]
+            owner: Dict[int, int] = {}
+            for m in loads:
+                hits = [k for k, ids in enumerate(seg_nodes) if id(m) in ids]
+                # a read inside the right-hand side of a definition belongs to the segment that contains that statement
+                if not hits:
+                    for k, (b, i, hi) in enumerate(segs):
+                        pass
+                    rhs_of = [k2 for k2, (b2, i2, _h) in enumerate(segs) if any(y is m for y in ast.walk(b2[i2].value))]
+                    if rhs_of:
+                        # which segment contains statement b2[i2]?  the previous definition in the same block
+                        b2, i2, _h = segs[rhs_of[0]]
+                        prev = [k3 for k3, (b3, i3, h3) in enumerate(segs) if b3 is b2 and i3 < i2 and h3 == i2]
+                        hits = prev
+                if len(hits) != 1:
+                    ok = False
+                    break
+                owner[id(m)] = hits[0]
+            if not ok:
+                continue
+            names = []
+            for k in range(len(segs)):
+                counter += 1
+                names.append(f"{x}__v{counter}")
+            for m in loads:
+                m.id = names[owner[id(m)]]
+            for k, (b, i, hi) in enumerate(segs):
+                b[i].targets[0].id = names[k]
+    ast.fix_missing_locations(tree)
+
+
+def copy_propagation(tree: ast.Module) -> None:
+    """y = x  (both plain names; y a local assigned exactly once and not captured; x a parameter or local that is never assigned after this
+    statement - at most one store in the function): y is x.  `x = x` is dropped."""
+    for fn in [n for n in ast.walk(tree) if isinstance(n, (ast.FunctionDef, ast.AsyncFunctionDef))]:
+        for _ in range(6):
+            own = list(_fn_scopes(fn))
+            params = {a.arg for a in fn.args.posonlyargs + fn.args.args + fn.args.kwonlyargs}
+            stores: Dict[str, int] = {}
+            for n in own:
+                if isinstance(n, ast.Name) and isinstance(n.ctx, (ast.Store, ast.Del)):
+                    stores[n.id] = stores.get(n.id, 0) + 1
+            declared = {nm for n in ast.walk(fn) if isinstance(n, (ast.Nonlocal, ast.Global)) for nm in n.names}
+            inner_stores = {m.id for n in ast.walk(fn) if isinstance(n, (ast.FunctionDef, ast.AsyncFunctionDef, ast.Lambda)) and n is not fn for m in ast.walk(n)
+                            if isinstance(m, ast.Name) and isinstance(m.ctx, ast.Store)} | {a.arg for n in ast.walk(fn) if isinstance(n, (ast.FunctionDef, ast.Lambda)) and n is not fn for a in n.args.posonlyargs + n.args.args + n.args.kwonlyargs}
+            done = False
+            for holder in [fn] + own:
+                for fld in ("body", "orelse", "finalbody"):
+                    b = getattr(holder, fld, None)
+                    if not (isinstance(b, list) and b and isinstance(b[0], ast.stmt)) or (isinstance(holder, (ast.FunctionDef, ast.ClassDef, ast.Lambda)) and holder is not fn):
+                        continue
+                    for i, st in enumerate(b):
+                        if not (isinstance(st, ast.Assign) and len(st.targets) == 1 and isinstance(st.targets[0], ast.Name) and isinstance(st.value, ast.Name)):
+                            continue
+                        y, x = st.targets[0].id, st.value.id
+                        if y == x:
+                            del b[i]
+                            if not b:
+                                b.append(ast.copy_location(ast.Pass(), st))
+                            done = True
+                            break
+                        if y in params or y in declared or x in declared or stores.get(y, 0) != 1 or y in inner_stores or x in inner_stores:
+                            continue
+                        if stores.get(x, 0) > (0 if x in params else 1):
+                            continue
+                        if x not in params and stores.get(x, 0) == 0:
+                            continue  # a global / closure variable: may change under our feet
+                        for m in ast.walk(fn):
+                            if isinstance(m, ast.Name) and m.id == y and isinstance(m.ctx, ast.Load):
+                                m.id = x
+                        del b[i]
+                        if not b:
+                            b.append(ast.copy_location(ast.Pass(), st))
+                        done = True
+                        break
+                    if done:
+                        break
+                if done:
+                    break
+            if not done:
+                break
+    ast.fix_missing_locations(tree)
